@@ -3,7 +3,7 @@ Import ListNotations.
 From BB Require Import BN Brute SpaceFacts TrapFacts PercolateFacts AttractorFacts Diagram Invariants Checks Filter
   Strict PetriNet Control Meta FilterFacts PetriNetFacts TrappistFacts DiagramStruct DiagramSem1 DiagramCache
   DiagramDepth DiagramComplete Termination ControlFacts MetaFacts Candidates StrictFacts MinExpandFacts CandidatesFacts SymbolicTest SymbolicTestFacts Signed ReductionFacts ControlFacts2 Main Blocks BlocksFacts ObsFacts OwnerFacts CandidatesTerm
-  PartialOwner BlockMath BlockComplete ASeeds ASeedsFacts LogChecks SkipRule SkipRuleFacts Names NamesFacts Perm PermFacts SCC SCCFacts SCCStruct ControlFacts3 SCCTerm FilterSym Main2 StrategyFacts ControlFacts4 PyLib PySrc PySrcFacts SkipRuleFacts2 SCCComplete SCCAttr BlockComplete2 ControlFacts5."""
+  PartialOwner BlockMath BlockComplete ASeeds ASeedsFacts LogChecks SkipRule SkipRuleFacts Names NamesFacts Perm PermFacts SCC SCCFacts SCCStruct ControlFacts3 SCCTerm FilterSym Main2 StrategyFacts ControlFacts4 PyLib PySrc PySrcFacts SkipRuleFacts2 SCCComplete SCCAttr BlockComplete2 ControlFacts5 Iso."""
 
 EX_NET = """
 (* non-vacuity: two bistable switches; x0'=x1, x1'=x0, x2'=x3, x3'=x2 *)
@@ -475,5 +475,7 @@ PARTIAL: summary() is not modelled; it is decided by recomputation in the run.""
            ("block_expansion_depth", "expand_block_DepthOK", "depth = longest root path after block expansion (source shortcut included)"),
            ("aseeds_expansion_depth", "expand_aseeds_DepthOK", None),
            ("source_space_unique_key", "py_space_unique_key_spec", "translator tie: the node key generated from the current source of space_utils.space_unique_key is the model's space_key"),
-           ("source_space_unique_key_raises", "py_space_unique_key_raises", "IndexError exactly for unknown variables")],
+           ("source_space_unique_key_raises", "py_space_unique_key_raises", "IndexError exactly for unknown variables"),
+           ("is_isomorphic_spec", "is_isomorphic_b_spec", "is_isomorphic = is_subgraph both ways = same node spaces and same edges"),
+           ("is_isomorphic_symmetric", "is_isomorphic_b_sym", None)],
  examples="")
